@@ -206,6 +206,12 @@ def deHeader : Parser Header := fun s => do
   let (n, r) ← readU 4 r
   pure ({ nVersion := v, hashPrevBlock := hp, hashMerkleRoot := hm, nTime := t, nBits := b, nNonce := n }, r)
 
+/-- `CBlock.stream_deserialize`.  After the two reads the Python code also runs
+    `build_merkle_tree_from_txs(vtx)` and `build_witness_merkle_tree_from_txs(vtx)` to fill
+    `vMerkleTree` / `vWitnessMerkleTree` (bitcoin/core/__init__.py:670-676).  On freshly parsed
+    transactions neither can raise (every `GetTxid`/`GetHash` serialises values that were just read
+    in range; `NoWitnessData` is caught; an empty `vtx` yields an empty tree), and the trees are not
+    part of the serialised state, so no outcome of this parser depends on them (C15 models them). -/
 def deBlock : Parser Block := fun s => do
   let (h, r) ← deHeader s
   let (vtx, r) ← deVector deTx r
